@@ -254,8 +254,23 @@ def build_prop(spec, parent=None):
                                                      for e in v) for v in values):
         # the other way of handing over n-tuples: the documented text form "(a;b)"
         values = ["(%s)" % ";".join(v) for v in values]
+    if values and spec["dtype"] in ("date", "time", "datetime") and sum(map(ord, spec["name"] or "")) % 3 == 1:
+        # the other way of handing over temporal values: the documented text form (what a file holds)
+        values = [temporal_text(v) for v in values]
     return odml.Property(name=spec["name"], values=values,
                          dtype=dtype, oid=spec.get("id"), parent=parent, **kw)
+
+
+def temporal_text(v):
+    """The odML text form of a date / time / datetime object (years zero-padded to four digits, no sub-second
+    part, no time zone: what the API keeps of such an object)."""
+    if isinstance(v, dt.datetime):
+        return "%04d-%02d-%02d %02d:%02d:%02d" % (v.year, v.month, v.day, v.hour, v.minute, v.second)
+    if isinstance(v, dt.date):
+        return "%04d-%02d-%02d" % (v.year, v.month, v.day)
+    if isinstance(v, dt.time):
+        return "%02d:%02d:%02d" % (v.hour, v.minute, v.second)
+    return v
 
 
 def build_sec(spec, parent=None):
@@ -276,7 +291,15 @@ def build_sec(spec, parent=None):
 def build_doc(spec):
     import odml
     kw = {a: spec[a] for a in ("author", "version", "date", "repository") if spec.get(a) is not None}
-    d = odml.Document(oid=spec.get("id"), **kw)
+    if isinstance(kw.get("date"), dt.date) and kw["date"].day % 2 == 0:
+        kw["date"] = temporal_text(kw["date"])      # every other Document date is handed over as text
+    if len(spec.get("sections", [])) % 2 == 1:
+        # the other way of stating the Document attributes: assigned after construction
+        d = odml.Document(oid=spec.get("id"))
+        for a, v in kw.items():
+            setattr(d, a, v)
+    else:
+        d = odml.Document(oid=spec.get("id"), **kw)
     for c in spec.get("sections", []):
         build_sec(c, d)
     return d
